@@ -17,6 +17,15 @@ class Engine(Interp):
 
     # ======================================================================== roles / keys
     def role_of(self, fr, operand):
+        cache = fr.body.__dict__.setdefault("_roles", {})
+        k = id(operand)
+        r = cache.get(k)
+        if r is None:
+            r = self._role_of(fr, operand)
+            cache[k] = r
+        return r
+
+    def _role_of(self, fr, operand):
         try:
             e = fr.body.expr(operand, depth=6)
             return self.show_named(fr, e)
@@ -504,6 +513,8 @@ class Engine(Interp):
                 st.part = st.part[:base]
                 return st
             steps += 1
+            if steps % 48 == 0:
+                gc_state(st, self.ctx.pins)
             if steps > budget:
                 return self.run_join(fr, [(bi, st)], base)
 
@@ -610,24 +621,42 @@ class Engine(Interp):
                 done = set()
                 ret_acc = [None]
 
+                edges_in = {}
+
                 def arr(succ, s2, pfx):
                     if succ == RET:
+                        full = s2.part
                         s2.part = s2.part[:part0]
-                        ret_acc[0] = s2 if ret_acc[0] is None else join_states(ctx, ret_acc[0], s2, ("ret", fr.id))
+                        ret_edges[(pfx, full)] = s2
                         return
                     sk = (succ, s2.part)
-                    old = arrivals.get(sk)
-                    if old is None:
-                        arrivals[sk] = s2
-                    else:
-                        tagk = (fr.id, succ)
-                        stale = {x: ctx.fresh() for x in s2.itv if type(x) is tuple and len(x) >= 2 and x[0] == "j" and x[1] == tagk}
-                        rename_bulk(s2, stale)
-                        arrivals[sk] = join_states(ctx, old, s2, (fr.id, succ))
-                    if sk not in done and sk not in [x[2] for x in pq]:
-                        heapq.heappush(pq, (rpo_idx[succ], len(done), sk))
-                for succ, s2 in seeds:
-                    arr(succ, s2.copy(), "seed")
+                    per = edges_in.setdefault(sk, {})
+                    old = per.get(pfx)
+                    if old is not None and same_state(old, s2):
+                        return
+                    per[pfx] = s2
+                    if sk in heads and sk in done:
+                        return          # heads are processed once per pass, with their stored state
+                    done.discard(sk)
+                    if sk not in [x[2] for x in pq]:
+                        heapq.heappush(pq, (rpo_idx[succ], len(done) + len(pq), sk))
+
+                def merged_in(sk):
+                    per = edges_in[sk]
+                    acc = None
+                    for pfx in sorted(per, key=str):
+                        s2 = per[pfx].copy()
+                        if acc is None:
+                            acc = s2
+                        else:
+                            tagk = (fr.id, sk[0])
+                            stale = {x: ctx.fresh() for x in s2.itv if type(x) is tuple and len(x) >= 2 and x[0] == "j" and x[1] == tagk}
+                            rename_bulk(s2, stale)
+                            acc = join_states(ctx, acc, s2, (fr.id, sk[0]))
+                    return acc
+                ret_edges = {}
+                for n_seed, (succ, s2) in enumerate(seeds):
+                    arr(succ, s2.copy(), ("seed", n_seed))
                 guard = 0
                 while pq:
                     _, _, sk = heapq.heappop(pq)
@@ -641,19 +670,27 @@ class Engine(Interp):
                     if sk in heads:
                         st = heads[sk].copy()
                     else:
-                        st = arrivals[sk].copy()
+                        st = merged_in(sk)
                     try:
                         outs = self.exec_block(st, fr, bi)
                     except Diverge:
                         outs = []
+                    # several outcomes towards the same successor: one edge state
+                    mo = {}
                     for succ, s2 in outs:
+                        k2 = (succ, s2.part)
+                        mo[k2] = s2 if k2 not in mo else join_states(ctx, mo[k2], s2, (fr.id, bi, "out", succ))
+                    for (succ, _), s2 in mo.items():
                         arr(succ, s2, bi)
                 for sk in list(heads):
-                    if sk in arrivals:
-                        nh = arrivals[sk]
+                    if sk in edges_in:
+                        nh = merged_in(sk)
                         gc_state(nh, ctx.pins)
                         heads[sk] = nh
-                final_ret = ret_acc[0]
+                final_ret = None
+                for kk in sorted(ret_edges, key=str):
+                    s2 = ret_edges[kk]
+                    final_ret = s2 if final_ret is None else join_states(ctx, final_ret, s2, ("ret", fr.id))
             finally:
                 if not last:
                     ctx.quiet -= 1
